@@ -587,8 +587,13 @@ def _run(case):
         return ok(nontrivial=True, outcome=label + "|moment-matching", stats=dict(grid_points=0))
 
     # ---------------------------------------------------------------- build (every catalogue entry is documented)
+    # p-grid and fine monotonicity grid are evaluated in ONE application (one array shape per process keeps the
+    # number of XLA compilations small); conventions that take one value per application only see the p-grid
+    loop_api = api in ("model-scalar", "transform")
+    xd = None if loop_api else R.dense_xi(tier)
+    xa = xi if loop_api else np.concatenate([xi, xd])
     try:
-        b = (_build_re if fl == "re" else _build_cl)(case, n)
+        b = (_build_re if fl == "re" else _build_cl)(case, len(xa))
     except Exception as e:       # noqa
         return bad("constructing the transform raised %r" % (e,), finding_key=_key(case, "construction:%s" % type(e).__name__))
 
@@ -601,9 +606,10 @@ def _run(case):
     stats = dict(grid_points=Rn * n)
 
     # ---------------------------------------------------------------- quantile clause
-    y = np.asarray(b.fwd(xi), dtype=float)
-    if y.shape != Q.shape:
-        return bad("transform returned shape %s for a grid of %s" % (y.shape, Q.shape), finding_key=_key(case, "shape"))
+    ya = np.asarray(b.fwd(xa), dtype=float)
+    if ya.shape != (Rn, len(xa)):
+        return bad("transform returned shape %s for an input of %s" % (ya.shape, (Rn, len(xa))), finding_key=_key(case, "shape"))
+    y, yd = ya[:, :n], (None if loop_api else ya[:, n:])
     if not np.all(np.isfinite(y)):
         i, j = np.argwhere(~np.isfinite(y))[0]
         return bad("transform(%.4g) = %s for parameters %s (%d of %d grid values not finite)"
@@ -630,11 +636,7 @@ def _run(case):
         i, j = np.argwhere(need_strict & ~(d > 0))[0]
         return bad("not strictly increasing between p-grid points %d and %d; parameters %s" % (j, j + 1, rows[i]),
                    finding_key=_key(case, "not-strictly-monotone"), detail=det)
-    xd = R.dense_xi(tier)
-    if api in ("model", "model-named", "model-scalar", "transform"):
-        yd = None       # shape bound to the grid / one application per point: the p-grid is the monotonicity grid
-    else:
-        yd = np.asarray(b.fwd(xd), dtype=float)
+    if yd is not None:
         stats["dense_points"] = int(yd.size)
         dd = np.diff(yd, axis=1)
         if not np.all(np.isfinite(yd)):
@@ -647,13 +649,22 @@ def _run(case):
                        % (xd[j], yd[i, j], xd[j + 1], yd[i, j + 1], rows[i]), finding_key=_key(case, "non-monotone"), detail=det)
 
     # ---------------------------------------------------------------- inverse clause
-    inv_done = False
+    inv_done = inv_refused = False
     if b.inv is not None:
         slope = np.stack([(R.quantile_of_xi(d_, post, xi + 1e-3) - R.quantile_of_xi(d_, post, xi - 1e-3)) / 2e-3
                           for d_, post in dists])
         tol_xi = 2 * tol / np.abs(slope) + 1e3 * R.EPS * (1 + np.abs(xi))
         for what, arg in (("exact-quantiles", Q), ("roundtrip", y)):
-            back = np.asarray(b.inv(arg), dtype=float)
+            if yd is not None:
+                arg = np.concatenate([arg, yd], axis=1)
+            try:
+                back = np.asarray(b.inv(arg), dtype=float)[:, :n]
+            except ValueError:
+                if not (fam == "invgamma" and api == "array"):
+                    raise
+                # only `invgamma_prior` documents array-valued `scale`; the inverse refuses it (raises): not provided
+                inv_refused = True
+                break
             if back.shape != Q.shape or not np.all(np.isfinite(back)):
                 return bad("inverse transform returned non-finite values / wrong shape on %s; parameters %s" % (what, rows),
                            finding_key=_key(case, "inverse-non-finite", what), detail=det)
@@ -665,13 +676,13 @@ def _run(case):
                               "1-" if tails[j] == "hi" else "", qs[j], abs(back[i, j] - xi[j]), tol_xi[i, j], rows[i]),
                            finding_key=_key(case, "inverse-mismatch", what), detail=det)
             det["inv_worst_" + what] = float(r2[i, j])
-        inv_done = True
+        inv_done = not inv_refused
 
     # ---------------------------------------------------------------- classic: same value through a Linearization
     if b.fwd_lin is not None:
-        v, jac = b.fwd_lin(xi)
-        if not np.array_equal(v, y):
-            return bad("value through a Linearization differs from the plain value by %.3g" % np.abs(v - y).max(),
+        v, jac = b.fwd_lin(xa)
+        if not np.array_equal(v, ya):
+            return bad("value through a Linearization differs from the plain value by %.3g" % np.abs(v - ya).max(),
                        finding_key=_key(case, "linearization-value-differs"), detail=det)
         if not np.all(jac > 0):
             return bad("Jacobian of a monotone transform is not positive (min %.3g)" % jac.min(),
@@ -701,7 +712,7 @@ def _run(case):
         stats["properties"] = len(b.props)
 
     acc = {None: "exact", "log": "log-table", "lin": "lin-table"}[table]
-    return ok(nontrivial=True, outcome="%s|%s%s%s" % (label, acc, "|+inverse" if inv_done else "",
+    return ok(nontrivial=True, outcome="%s|%s%s%s" % (label, acc, "|+inverse" if inv_done else ("|inverse-refuses-array-scale" if inv_refused else ""),
                                                       "|dense-monotone" if yd is not None else ""),
               stats=stats, detail=det)
 
